@@ -374,7 +374,7 @@ pub fn check(tier: Tier, seed: u64) -> PropReport {
     );
     rep.assumptions = vec!["contracts run natively inside cw-multi-test; any address, including a contract's, can be used as a message sender".into()];
     let payloads: Vec<u32> = match tier {
-        Tier::Quick => vec![seed as u32 ^ 0x1234_5678],
+        Tier::Quick => (0..4u32).map(|k| (seed as u32 ^ 0x1234_5678).wrapping_add(k.wrapping_mul(0x9E37_79B9))).collect(),
         Tier::Thorough => (0..24u32).map(|k| (seed as u32).wrapping_mul(2654435761).wrapping_add(k.wrapping_mul(0x9E37_79B9))).collect(),
     };
     let t0 = std::time::Instant::now();
